@@ -296,6 +296,11 @@ FUNCTION_PARSER_LOG("FunctionParser::parseThis", "start-expression = " << expres
     {
       FUNCTION_PARSER_LOG("FunctionParser::parseThis", "in bracket loop with expression = " << expr);
       foundBrackets = false;
+      // (after removing an all-enclosing bracket the rest need not start with a bracket any more)
+      if(expr.size() < 2 || expr[0] != '(')
+        break;
+      if(expr[1] == ')')
+        throw gError("FunctionParser::parseThis", "Empty bracket!");
       size_t open = 1;
       size_t position = 0;
       // find the next bracket, either "(" or ")"
@@ -306,6 +311,8 @@ FUNCTION_PARSER_LOG("FunctionParser::parseThis", "start-expression = " << expres
 // FUNCTION_PARSER_LOG("FunctionParser::parseThis", "position = " << position);
         another = expr.find("(", another);
 // FUNCTION_PARSER_LOG("FunctionParser::parseThis", "another = " << another);
+        if(position == string::npos && another == string::npos)
+          throw gError("FunctionParser::parseThis", "Unbalanced brackets in expression '" + expression + "'.");
         if(position > another)
         {
           position = another;
